@@ -570,9 +570,18 @@ fn run_bld(ws: &[&str]) -> Option<(String, Vec<String>)> {
         started: AtomicUsize,
         done: AtomicUsize,
         release: AtomicBool,
+        kill_next: AtomicBool,
+        factory_calls: AtomicUsize,
     }
+    // `kill=1`: before the measurement one worker is killed (its service panics on a connection) and the server
+    // replaces it: the replacement must get the configured limit too
+    let kill = match kv(ws, "kill") {
+        None | Some("0") => false,
+        Some("1") => true,
+        _ => return None,
+    };
     thread_local! { static INPROG: std::cell::Cell<usize> = const { std::cell::Cell::new(0) }; }
-    let sh = Arc::new(Shared { maxper: AtomicUsize::new(0), started: AtomicUsize::new(0), done: AtomicUsize::new(0), release: AtomicBool::new(false) });
+    let sh = Arc::new(Shared { maxper: AtomicUsize::new(0), started: AtomicUsize::new(0), done: AtomicUsize::new(0), release: AtomicBool::new(false), kill_next: AtomicBool::new(false), factory_calls: AtomicUsize::new(0) });
     let calls: Vec<String> = calls.iter().map(|c| c.to_string()).collect();
     let _beat = Beating::start();
     let sh2 = sh.clone();
@@ -609,8 +618,12 @@ fn run_bld(ws: &[&str]) -> Option<(String, Vec<String>)> {
                 .disable_signals()
                 .listen("verif-bld", lst, move || {
                     let sh = shs.clone();
+                    sh.factory_calls.fetch_add(1, Ordering::SeqCst); // one call per worker (re)start
                     actix_service::fn_service(move |stream: actix_rt::net::TcpStream| {
                         let sh = sh.clone();
+                        if sh.kill_next.swap(false, Ordering::SeqCst) {
+                            panic!("verif: service killed on request");
+                        }
                         async move {
                             let c = INPROG.with(|c| {
                                 c.set(c.get() + 1);
@@ -633,6 +646,41 @@ fn run_bld(ws: &[&str]) -> Option<(String, Vec<String>)> {
             let handle = srv.handle();
             let srv_task = actix_rt::spawn(srv);
             let mut clients = vec![];
+            if kill {
+                // C02 speaks of fault-free operation: the connection that discovers a dead worker is force-sent to
+                // another worker whatever its load. So the fault, its discovery and the replacement all happen
+                // BEFORE the measurement, with connections that end at once; only then are the clients held.
+                sh.release.store(true, Ordering::SeqCst);
+                let t0 = std::time::Instant::now();
+                while sh.factory_calls.load(Ordering::SeqCst) < workers && t0.elapsed() < Duration::from_secs(30) {
+                    tokio::time::sleep(Duration::from_millis(10)).await;
+                }
+                sh.kill_next.store(true, Ordering::SeqCst);
+                let mut probes = vec![];
+                let t0 = std::time::Instant::now();
+                while (sh.kill_next.load(Ordering::SeqCst) || sh.factory_calls.load(Ordering::SeqCst) < workers + 1) && t0.elapsed() < Duration::from_secs(30) {
+                    if let Ok(c) = std::net::TcpStream::connect(addr) {
+                        let _ = socket2::SockRef::from(&c).set_linger(Some(Duration::ZERO));
+                        probes.push(c);
+                    }
+                    tokio::time::sleep(Duration::from_millis(50)).await;
+                }
+                if sh.factory_calls.load(Ordering::SeqCst) < workers + 1 {
+                    return Err("the killed worker was not replaced within 30 s".to_string());
+                }
+                // let every probe end, then start counting afresh
+                let t0 = std::time::Instant::now();
+                while sh.started.load(Ordering::SeqCst) != sh.done.load(Ordering::SeqCst) && t0.elapsed() < Duration::from_secs(30) {
+                    tokio::time::sleep(Duration::from_millis(10)).await;
+                }
+                tokio::time::sleep(Duration::from_millis(300)).await;
+                drop(probes);
+                tokio::time::sleep(Duration::from_millis(200)).await;
+                sh.release.store(false, Ordering::SeqCst);
+                sh.maxper.store(0, Ordering::SeqCst);
+                sh.started.store(0, Ordering::SeqCst);
+                sh.done.store(0, Ordering::SeqCst);
+            }
             for _ in 0..n {
                 let mut tries = 0;
                 let c = loop {
@@ -935,6 +983,8 @@ fn run(a: &Args) {
                     Some((real, t3)) => {
                         for t in t3 {
                             let (p, m) = t.split_once('\t').unwrap();
+                            // a worker above its limit is also "a saturated worker was given another connection" (C04)
+                            let p = if prop == "C04" { "C04" } else { p };
                             rep.t3(p, m);
                         }
                         real
@@ -1377,6 +1427,10 @@ fn gen(a: &Args) {
         }
     }
     if prop == "C04" {
+        // a saturated worker receives nothing until it has released a connection — also a worker the server started
+        // as a replacement (real Servers through the builder; the second one loses a worker first)
+        writeln!(w, "bld workers=2 limit=1 n=5 calls=workers,limit").unwrap();
+        writeln!(w, "bld workers=2 limit=1 n=4 calls=limit,workers kill=1").unwrap();
         for i in 0..=600usize {
             writeln!(w, "k-offset {i}").unwrap();
         }
@@ -1425,6 +1479,9 @@ fn gen(a: &Args) {
         for f in fixed {
             writeln!(w, "{f}").unwrap();
         }
+        writeln!(w, "bld workers=2 limit=1 n=4 calls=workers,limit kill=1").unwrap();
+        writeln!(w, "bld workers=1 limit=2 n=4 calls=limit,workers,blocking:4 kill=1").unwrap();
+        writeln!(w, "bld workers=1 limit=1 n=1 calls=limit,workers kill=2").unwrap();
         let extra = if thorough { 40 } else { 4 };
         for _ in 0..extra {
             let wk = 1 + rng.below(3) as usize;
